@@ -26,7 +26,16 @@ Record ct := mkCt { c_minh : N; c_minw : N; c_maxh : N; c_maxw : N }.
 Definition ct_valid (c : ct) : bool := (c_minh c <=? c_maxh c) && (c_minw c <=? c_maxw c).
 
 (* view context: glyph capability + char widths (rctx), pixels per cell *)
-Record vctx := mkV { v_r : rctx; ppc_h : N; ppc_w : N }.
+(* v_share: the value of `((major_remain as f64) * flex / flex_total).round() as usize` in flex_layout,
+   as a function of the flex factors of the node (in order), the index of the flex child being laid
+   out and the remaining space.  It is an oracle: the running f64 total makes the value depend on the
+   whole sequence of factors; every theorem holds for EVERY such function (binary64 arithmetic on any
+   doubles included); the correspondence run instantiates it with exact rational arithmetic, which f64
+   reproduces for dyadic factors.  v_frag: image identities of the nine fragments Frame paints. *)
+Record vctx := mkV {
+  v_r : rctx; ppc_h : N; ppc_w : N;
+  v_share : list positive -> nat -> N -> N;
+  v_frag : nat -> N }.
 
 Inductive vtree :=
 | VText (cells : list ccell) (wraps : bool)                       (* Text *)
@@ -153,29 +162,29 @@ Definition flex_pass1 (d : axis) (cl : ct) (acc : outcome fl1) (ch : lchild) : o
   | Some f => Ok (mkFl1 (f1_trees a ++ [lnode0]) (f1_nonflex a) (f1_minor a) (f1_total a + Npos f))
   end.
 
-(* (((major_remain as f64) * flex / flex_total).round() as usize).min(major_remain), for factors
-   whose f64 arithmetic is exact (positive numerators over a common power-of-two denominator) *)
-Definition flex_share (remain f total : N) : N := N.min ((2 * remain * f + total) / (2 * total)) remain.
+(* exact value of round(remain * f_idx / (f_idx + f_idx+1 + ...)) for positive rational factors *)
+Definition exact_share (factors : list positive) (idx : nat) (remain : N) : N :=
+  let f := Npos (nth idx factors 1%positive) in
+  let total := fold_right (fun p a => Npos p + a) 0 (skipn idx factors) in
+  (2 * remain * f + total) / (2 * total).
 
-Record fl2 := mkFl2 { f2_trees : list ltree; f2_remain : N; f2_flex : N; f2_minor : N; f2_total : N }.
+Record fl2 := mkFl2 { f2_trees : list ltree; f2_remain : N; f2_flex : N; f2_minor : N; f2_idx : nat }.
 
-Definition flex_pass2 (d : axis) (cl : ct) (acc : outcome fl2) (cht : lchild * ltree) : outcome fl2 :=
+Definition flex_pass2 (share : nat -> N -> N) (d : axis) (cl : ct) (acc : outcome fl2) (cht : lchild * ltree) : outcome fl2 :=
   let* a := acc in
   let '((lay, fl, _), t0) := cht in
   match fl with
-  | None => Ok (mkFl2 (f2_trees a ++ [t0]) (f2_remain a) (f2_flex a) (f2_minor a) (f2_total a))
-  | Some f =>
-      if f2_total a =? 0 then Panic 1001 (* division by a zero total cannot happen: the total includes f *)
+  | None => Ok (mkFl2 (f2_trees a ++ [t0]) (f2_remain a) (f2_flex a) (f2_minor a) (f2_idx a))
+  | Some _ =>
+      (* as repaired: the share is capped by the remaining space *)
+      let cmax := N.min (share (f2_idx a) (f2_remain a)) (f2_remain a) in
+      if cmax =? 0 then Ok (mkFl2 (f2_trees a ++ [t0]) (f2_remain a) (f2_flex a) (f2_minor a) (S (f2_idx a)))
       else
-        let cmax := flex_share (f2_remain a) (Npos f) (f2_total a) in
-        let total' := f2_total a - Npos f in
-        if cmax =? 0 then Ok (mkFl2 (f2_trees a ++ [t0]) (f2_remain a) (f2_flex a) (f2_minor a) total')
-        else
-          let* t := lay (axis_ct d cl 0 cmax) in
-          let mj := major d (l_hh t) (l_ww t) in
-          (* fix: saturating_sub; a child may exceed its share (Frame, ScrollBar) *)
-          Ok (mkFl2 (f2_trees a ++ [t]) (f2_remain a - mj) (sat_addN (f2_flex a) mj)
-                    (N.max (f2_minor a) (minor d (l_hh t) (l_ww t))) total')
+        let* t := lay (axis_ct d cl 0 cmax) in
+        let mj := major d (l_hh t) (l_ww t) in
+        (* as repaired: saturating_sub; a child may exceed its share (Frame, ScrollBar) *)
+        Ok (mkFl2 (f2_trees a ++ [t]) (f2_remain a - mj) (sat_addN (f2_flex a) mj)
+                  (N.max (f2_minor a) (minor d (l_hh t) (l_ww t))) (S (f2_idx a)))
   end.
 
 Definition flex_spaces (j : justify) (unused n : N) : outcome (N * N) :=
@@ -198,14 +207,17 @@ Definition flex_place (d : axis) (mn between : N) (acc : list ltree * N) (cht : 
   let '(r, c) := from_axes d off (align_pos al (minor d (l_hh t) (l_ww t)) mn) in
   (done ++ [set_pos t r c], sat_addN (sat_addN off (major d (l_hh t) (l_ww t))) between).
 
-Definition flex_layout (d : axis) (j : justify) (c : ct) (cs : list lchild) : outcome ltree :=
+Definition flex_factors (cs : list lchild) : list positive :=
+  flat_map (fun ch : lchild => match snd (fst ch) with Some f => [f] | None => [] end) cs.
+
+Definition flex_layout (share : list positive -> nat -> N -> N) (d : axis) (j : justify) (c : ct) (cs : list lchild) : outcome ltree :=
   let cl := ct_loosen c in
   let* p1 := fold_left (flex_pass1 d cl) cs (Ok (mkFl1 [] 0 (minor d (c_minh c) (c_minw c)) 0)) in
   let remain := major d (c_maxh c) (c_maxw c) - f1_nonflex p1 in
   let* p2 :=
     if (0 <? remain) && (0 <? f1_total p1) then
-      fold_left (flex_pass2 d cl) (combine cs (f1_trees p1)) (Ok (mkFl2 [] remain 0 (f1_minor p1) (f1_total p1)))
-    else Ok (mkFl2 (f1_trees p1) remain 0 (f1_minor p1) (f1_total p1)) in
+      fold_left (flex_pass2 (share (flex_factors cs)) d cl) (combine cs (f1_trees p1)) (Ok (mkFl2 [] remain 0 (f1_minor p1) 0%nat))
+    else Ok (mkFl2 (f1_trees p1) remain 0 (f1_minor p1) 0%nat) in
   let unused := major d (c_maxh c) (c_maxw c) - sat_addN (f1_nonflex p1) (f2_flex p2) in
   let* sp := flex_spaces j unused (N.of_nat (length cs)) in
   let '(placed, off) := fold_left (flex_place d (f2_minor p2) (snd sp)) (combine cs (f2_trees p2)) ([], fst sp) in
@@ -235,7 +247,7 @@ Fixpoint layout (vc : vctx) (v : vtree) (c : ct) {struct v} : outcome ltree :=
   | VText cells wraps => text_layout_v vc cells wraps c
   | VStr chars => text_layout_v vc (str_cells chars) true c
   | VFlex d j cs =>
-      flex_layout d j c
+      flex_layout (v_share vc) d j c
         (map (fun ch : fchild => match ch with (v', fl, _, al) => (layout vc v', fl, al) end) cs)
   | VContainer child _ av ah m sz_h sz_w => container_layout (layout vc child) av ah m sz_h sz_w c
   | VFrame child _ =>
@@ -284,6 +296,11 @@ Definition apply_to (sh : shape) (t : ltree) : shape :=
 (* what a rendering pass carries: the backing slice and the log of probe calls *)
 Record rst := mkR { r_data : list ccell; r_log : list (N * shape) }.
 
+(* log entries of library leaves: LEAF_TAG + kind code (text 1, str 2, scroll bar 6, fill 10, image 12,
+   glyph 13, surface 15, half-block image 16); probes log their own id *)
+Definition LEAF_TAG : N := 1000000.
+Definition logged (s : rst) (d : list ccell) (k : N) (sub : shape) : rst := mkR d (r_log s ++ [(LEAF_TAG + k, sub)]).
+
 Definition of_opt {A} (site : N) (o : option A) : outcome A :=
   match o with Some x => Ok x | None => Panic site end.
 
@@ -309,12 +326,13 @@ Definition write_cells (vc : vctx) (sh : shape) (d : list ccell) (wraps : bool) 
 (* fragment_index *)
 Definition fragment_index (i size : nat) : nat := if (i =? 0)%nat then 0%nat else if (i + 1 <? size)%nat then 1%nat else 2%nat.
 
-Definition FRAME_FRAGMENT : N := 999.
+(* an image that is none of the images of the case's tables (a crop of one of them) *)
+Definition OTHER_IMAGE : N := 999.
 
-Definition frame_cell (color : N) (w h c r : nat) (old : ccell) : ccell :=
+Definition frame_cell (frag : nat -> N) (color : N) (w h c r : nat) (old : ccell) : ccell :=
   if (fragment_index c w =? 1)%nat && (fragment_index r h =? 1)%nat
   then mkCell (mkFace None (Some color) 0) (KChar 32)
-  else mkCell face0 (KImage FRAME_FRAGMENT 1 1).
+  else mkCell face0 (KImage (frag (fragment_index c w + 3 * fragment_index r h)%nat) 1 1).
 
 (* ScrollBar::render: size / offset of the thumb for fractions off_num/den, vis_num/den *)
 Definition round_div (a b : N) : N := (2 * a + b) / (2 * b).   (* round half up of a / b, b > 0 *)
@@ -355,9 +373,9 @@ Definition flex_render_step (d : axis) (sub : shape) (acc : outcome rst) (ct' : 
 Fixpoint render (vc : vctx) (v : vtree) (t : ltree) (sh : shape) (s : rst) {struct v} : outcome rst :=
   match v with
   | VText cells wraps =>
-      let* d := write_cells vc (apply_to sh t) (r_data s) wraps cells in Ok (mkR d (r_log s))
+      let* d := write_cells vc (apply_to sh t) (r_data s) wraps cells in Ok (logged s d 1 (apply_to sh t))
   | VStr chars =>
-      let* d := write_cells vc (apply_to sh t) (r_data s) true (str_cells chars) in Ok (mkR d (r_log s))
+      let* d := write_cells vc (apply_to sh t) (r_data s) true (str_cells chars) in Ok (logged s d 2 (apply_to sh t))
   | VFlex d _ cs =>
       let sub := apply_to sh t in
       fold_left (flex_render_step d sub)
@@ -374,7 +392,7 @@ Fixpoint render (vc : vctx) (v : vtree) (t : ltree) (sh : shape) (s : rst) {stru
       if has_glyphs (v_r vc) then
         let sub := apply_to sh t in
         let* d := of_opt 1012 (fill_with sub (r_data s)
-                                 (fun r c old => frame_cell color (sh_width sub) (sh_height sub) c r old)) in
+                                 (fun r c old => frame_cell (v_frag vc) color (sh_width sub) (sh_height sub) c r old)) in
         match l_kids t with
         | k :: _ => render vc child k sub (mkR d (r_log s))
         | [] => Err 1
@@ -393,7 +411,7 @@ Fixpoint render (vc : vctx) (v : vtree) (t : ltree) (sh : shape) (s : rst) {stru
         let n := N.min mj (N.of_nat (sh_height sub * sh_width sub + 1)) in
         let cells := map (fun i => if (N.of_nat i <? offset) || (sat_addN offset size <=? N.of_nat i) then bg else fg)
                          (seq 0 (N.to_nat n)) in
-        let* d := write_cells vc sub (r_data s) true cells in Ok (mkR d (r_log s))
+        let* d := write_cells vc sub (r_data s) true cells in Ok (logged s d 6 sub)
   | VTag _ child =>
       let sub := apply_to sh t in
       match l_kids t with
@@ -408,7 +426,7 @@ Fixpoint render (vc : vctx) (v : vtree) (t : ltree) (sh : shape) (s : rst) {stru
       end
   | VFill color =>
       let* d := fill_cells (apply_to sh t) (r_data s) (mkCell (mkFace None (Some color) 0) (KChar 32)) in
-      Ok (mkR d (r_log s))
+      Ok (logged s d 10 (apply_to sh t))
   | VUnit => Ok s
   | VImage id ph pw =>
       let sub := apply_to sh t in
@@ -420,19 +438,19 @@ Fixpoint render (vc : vctx) (v : vtree) (t : ltree) (sh : shape) (s : rst) {stru
                        (ph <=? N.of_nat (sh_height sub) * ppc_h vc) && (pw <=? N.of_nat (sh_width sub) * ppc_w vc) in
           let '(h, w) := image_cells vc (N.min ph (N.of_nat (sh_height sub) * ppc_h vc))
                                         (N.min pw (N.of_nat (sh_width sub) * ppc_w vc)) in
-          let cell := mkCell (c_face old) (KImage (if whole then id else FRAME_FRAGMENT) (N.to_nat h) (N.to_nat w)) in
-          Ok (mkR (list_upd (r_data s) (offset sub 0 0) cell) (r_log s))
-      | None => Ok s
+          let cell := mkCell (c_face old) (KImage (if whole then id else OTHER_IMAGE) (N.to_nat h) (N.to_nat w)) in
+          Ok (logged s (list_upd (r_data s) (offset sub 0 0) cell) 12 sub)
+      | None => Ok (logged s (r_data s) 12 sub)
       end
   | VGlyph id gh gw fb =>
       let sub := apply_to sh t in
       if has_glyphs (v_r vc) then
         match get sub (r_data s) 0 0 with
-        | Some old => Ok (mkR (list_upd (r_data s) (offset sub 0 0) (mkCell (c_face old) (KGlyph id gh gw fb))) (r_log s))
-        | None => Ok s
+        | Some old => Ok (logged s (list_upd (r_data s) (offset sub 0 0) (mkCell (c_face old) (KGlyph id gh gw fb))) 13 sub)
+        | None => Ok (logged s (r_data s) 13 sub)
         end
       else
-        let* d := write_cells vc sub (r_data s) true (str_cells fb) in Ok (mkR d (r_log s))
+        let* d := write_cells vc sub (r_data s) true (str_cells fb) in Ok (logged s d 13 sub)
   | VProbe id _ _ =>
       let sub := apply_to sh t in
       let* d := fill_cells sub (r_data s) (mkCell face0 (KChar (61440 + id))) in
@@ -444,13 +462,13 @@ Fixpoint render (vc : vctx) (v : vtree) (t : ltree) (sh : shape) (s : rst) {stru
       let ww := N.min (N.of_nat (sh_width sub)) w in
       let area := Shape.view sub (resolve (sh_height sub) (To (Z.of_N hh))) (resolve (sh_width sub) (To (Z.of_N ww))) in
       let* d := of_opt 1013 (fill_with area (r_data s) (fun _ _ old => cell_overlay old c)) in
-      Ok (mkR d (r_log s))
+      Ok (logged s d 15 sub)
   | VImageAscii ih iw color =>
       let sub := apply_to sh t in
       let px := fun (r c : nat) => if (N.of_nat r <? ih)%N && (N.of_nat c <? iw)%N then Some color else None in
       let* d := of_opt 1014 (fill_with sub (r_data s)
                                (fun r c _ => mkCell (mkFace (px (2 * r)%nat c) (px (2 * r + 1)%nat c) 0) (KChar 9600))) in
-      Ok (mkR d (r_log s))
+      Ok (logged s d 16 sub)
   | VRef None => Ok s
   | VRef (Some v') =>
       match l_data t with
